@@ -34,8 +34,15 @@ template <class F> static bool throws(F f) { try { f(); return false; } catch (c
 inline std::vector<unsigned char> drain(Stream::BidirectionalReader& r) { std::vector<unsigned char> out; unsigned char buf[7]; for (;;) { std::size_t n = r.ReadPartial(buf, sizeof buf); if (!n) break; out.insert(out.end(), buf, buf + n); if (out.size() > (1u << 26)) break; } return out; }
 inline std::vector<unsigned char> raw(const json& a) { std::vector<unsigned char> b; for (auto& x : a) b.push_back((unsigned char)x.get<int>()); return b; }
 inline std::vector<unsigned char> dyn_bytes(Stream::DynamicMemoryWriter& w) { auto r = w.GetReader(); std::vector<unsigned char> b(r.Length()); if (!b.empty()) r.Read(b.data(), b.size()); return b; }
+// Every loader and saver has several entry points (a stream by reference, a temporary stream, a file path).  The specification speaks about
+// byte strings, not about entry points: each scenario goes through one of them, chosen by a stable hash of the scenario's identity.
+inline int via(int n) { unsigned h = 2166136261u; for (unsigned char ch : CURSCN) h = (h ^ ch) * 16777619u; return (int)((h >> 7) % (unsigned)n); }
+inline std::string via_path(const char* name) { return ROOT + "/" + name; }
 inline void logev(const json& e) { LOGF << e.dump() << "\n"; LOGF.flush(); }
 // every ops_* function handles the steps of one subsystem; it sets handled = false when the step is not one of its own
+// coverage builds (tools/coverage.py): a forked child that leaves through _exit() writes its counters first
+extern "C" int __llvm_profile_write_file(void) __attribute__((weak));
+static inline void flush_profile() { if (__llvm_profile_write_file) __llvm_profile_write_file(); }
 #define OPS_PROLOGUE \
 	handled = true; const std::string op = s["op"]; const std::string site = PROP + "." + op; \
 	auto where = [&](const std::string& extra) { return CURSCN + " step " + std::to_string(idx) + " " + op + " " + extra; }; \
